@@ -141,6 +141,10 @@ class World:
 # ---------------------------------------------------------------------------
 # The whole application in-process
 
+class NothingBound(common.HarnessError):
+	""" The application created its sockets on the in-memory network but bound none of them. """
+
+
 THREAD_ERRORS = []     # uncaught exceptions of threads started by the code under test
 
 
@@ -182,6 +186,9 @@ class AppWorld:
 		capture_logging()
 		self.app_binds = list(self.net.bind_log)     # sockets bound by the application itself
 		if not self.app_binds:
+			sm = getattr(self.net, "sm", None)
+			if sm is not None and sm.created:
+				raise NothingBound("the application created %d sockets and bound none of them" % sm.created)
 			raise common.HarnessError("vnet is not attached: the application bound no socket on it")
 		self.gen = self.app.clck_gen
 		self.breaker = vclock.VEvent(self.vt, gated = gated)
